@@ -588,6 +588,10 @@ func (w *ssWorld) do(st ssStep) bool {
 		if o == nil {
 			return false
 		}
+		if o.recvBuf.len+ssPendingBytes(o) > 0 || ssState(o) == "open" {
+			// the spec has nothing pending here and the stream ended; the real stream differs (structural drift)
+			return false
+		}
 		o.SetReadDeadline(time.Now().Add(300 * time.Millisecond))
 		_, err := o.BufferReader().ReadBytes(1)
 		o.SetReadDeadline(time.Time{})
